@@ -165,11 +165,20 @@ func (f *FST) Contains(val []byte) (bool, error) {
 
 func (f *FST) Close() error { return nil }
 
-type Reader struct{ f *FST }
+// A Reader is a per-caller lookup handle: like the real one (which keeps a
+// preallocated decoder state) it is written by every Get, so it must not be
+// shared between concurrent callers.
+type Reader struct {
+	f       *FST
+	scratch int
+}
 
 func (f *FST) Reader() (*Reader, error) { return &Reader{f: f}, nil }
 
-func (r *Reader) Get(input []byte) (uint64, bool, error) { return r.f.Get(input) }
+func (r *Reader) Get(input []byte) (uint64, bool, error) {
+	r.scratch = len(input)
+	return r.f.Get(input)
+}
 
 type Iterator interface {
 	Current() ([]byte, uint64)
